@@ -41,6 +41,13 @@ Proof.
       rewrite ?Hv, ?Htm, ?Z.ltb_irrefl; cbn [negb orb]; rewrite ?Hv, ?Htm; cbn [negb orb]; auto.
 Qed.
 
+Lemma memz_in_iff x l : memz x l = true <-> In x l.
+Proof.
+  unfold memz. rewrite existsb_exists. split.
+  - intros (y & Hy & E). apply Z.eqb_eq in E. subst. auto.
+  - intros H. exists x. split; auto. apply Z.eqb_refl.
+Qed.
+
 Section Resolve.
   Variable cf : cfg.
 
@@ -48,20 +55,27 @@ Section Resolve.
     resolve_marks cf hd day (map g L) s = Ok (r, s') ->
     r = map (fun x => if is_mark (g x) then day else g x) L /\
     (forall P, wsum P (s_gh s') = wsum P (s_gh s) + eff cf P day day (count (fun x => is_mark (g x)) L)) /\
-    (forall T, gh_ok T (s_gh s) -> (is_mark day = false -> 0 <= tp cf day <= T) -> gh_ok T (s_gh s')).
+    (forall T, gh_ok T (s_gh s) -> (is_mark day = false -> 0 <= tp cf day <= T) -> gh_ok T (s_gh s')) /\
+    (is_mark day = false -> forall k, In k (keys (s_gh s')) <->
+       In k (keys (s_gh s)) \/ (0 < count (fun x => is_mark (g x)) L /\ k = tp cf day)).
   Proof.
     induction L as [|x L IH]; intros s r s' E; cbn [map resolve_marks] in E.
-    - injection E as <- <-. split; [reflexivity|]. split; [intros P; unfold count; cbn; rewrite eff_0; lia|auto].
+    - injection E as <- <-. split; [reflexivity|]. split; [intros P; unfold count; cbn; rewrite eff_0; lia|split; [auto|]].
+      intros _ k. unfold count. cbn. intuition lia.
     - destruct (is_mark (g x)) eqn:Em.
       + destruct (update_time cf hd s day day 1) as [s1| |] eqn:E1; try discriminate.
         destruct (resolve_marks cf hd day (map g L) s1) as [[r1 s2]| |] eqn:E2; try discriminate.
-        injection E as <- <-. destruct (IH _ _ _ E2) as (R1 & R2 & R3). split; [cbn [map]; rewrite Em, R1; reflexivity|].
-        split.
+        injection E as <- <-. destruct (IH _ _ _ E2) as (R1 & R2 & R3 & R4). split; [cbn [map]; rewrite Em, R1; reflexivity|].
+        split; [|split].
         * intros P. rewrite R2, (update_time_gh cf P _ _ _ _ _ _ E1), count_cons, Em. rewrite <- (eff_add cf day P 1). lia.
         * intros T Hok Hd. apply R3; auto. eapply update_time_ok; eauto. intros Hm _. specialize (Hd Hm). lia.
+        * intros Hd k. rewrite (R4 Hd k), count_cons, Em.
+          destruct (update_time_cases _ _ _ _ _ _ _ E1) as [(Ec & _)|[(_ & Ec & _)|(_ & _ & E3)]]; try congruence.
+          rewrite E3, keys_sp_add. pose proof (count_nonneg (fun x0 => is_mark (g x0)) L). intuition lia.
       + destruct (resolve_marks cf hd day (map g L) s) as [[r1 s2]| |] eqn:E2; try discriminate.
-        injection E as <- <-. destruct (IH _ _ _ E2) as (R1 & R2 & R3). split; [cbn [map]; rewrite Em, R1; reflexivity|].
-        split; [|exact R3]. intros P. rewrite R2, count_cons, Em. reflexivity.
+        injection E as <- <-. destruct (IH _ _ _ E2) as (R1 & R2 & R3 & R4). split; [cbn [map]; rewrite Em, R1; reflexivity|].
+        split; [|split; [exact R3|]]. { intros P. rewrite R2, count_cons, Em. reflexivity. }
+        intros Hd k. rewrite (R4 Hd k), count_cons, Em. intuition lia.
   Qed.
 End Resolve.
 
@@ -99,14 +113,14 @@ Section Merge.
     mgood l b' /\ (forall P, wsum P (s_gh s') = wsum P (s_gh s)) /\
     (forall T, gh_ok T (s_gh s) -> gh_ok T (s_gh s')) /\
     b_tick b' = tick_of h m /\ b_mauthor b' = znth 0 aidx m /\
-    b_merged b' = merged_after A (Some l) m mark (h_paths h) [].
+    b_merged b' = merged_after A (Some l) m mark (h_paths h) [] /\ s_gh s' = s_gh s.
   Proof.
     intros Hl Hsub Hg E. unfold consume in E.
     set (b1 := mkBranch (b_files b) [] (znth 0 aidx m) mark (b_prev b)) in *.
     destruct (handle_changes cf (znth 0 aidx m) (changes_of h A (Some l) m) b1 s) as [[b2 s2]| |] eqn:E2; try discriminate.
     injection E as <- <-. unfold changes_of in E2.
     destruct (paths_step cf A (Some l) m valf (znth 0 aidx m) (h_paths h) b1 s b2 s2 (paths_nodup h Hcf))
-      as (Q1 & Q2 & Q3 & Q4 & Q5 & Q6 & Q7); auto.
+      as (Q1 & Q2 & Q3 & Q4 & Q5 & Q6 & Q7 & Q8); auto.
     { intros pl Hin E. unfold old_exists, path_exists in *. apply existsb_exists in E. destruct E as (x & Hx & E).
       apply existsb_exists. exists x. split; auto. }
     change (b_tick b1) with mark in *. change (b_merged b1) with (@nil (Z * bool)) in *.
@@ -115,7 +129,12 @@ Section Merge.
     { intros P. cbn [s_gh]. rewrite Q4, eff_mark, effs_mark. lia. }
     split.
     { intros T Hok. cbn [s_gh]. apply Q5; auto; intros Hc; rewrite tM_mark in Hc; discriminate. }
-    split; [reflexivity|]. split; [exact Q7|exact Q6].
+    split; [reflexivity|]. split; [exact Q7|]. split; [exact Q6|].
+    cbn [s_gh]. fold tM in Q8.
+    assert (Hpre : is_mark tM = false -> forall (pl : Z * list line) (l0 : line), In pl (h_paths h) -> In l0 (snd pl) ->
+                   old_alive A (Some l) l0 = true -> is_mark (valf l0) = false).
+    { intros Hc. rewrite tM_mark in Hc. discriminate. }
+    destruct (Q8 Hpre) as [K _]. apply K. apply tM_mark.
   Qed.
 
   (* ---------- the parents' branches ---------- *)
@@ -171,7 +190,8 @@ Section Merge.
     match fs with f0 :: others => file_merge cf dayv f0 others s | [] => Err POther end = Ok (f', s') ->
     f_vals f' = map valf (filter (aliveb A m) seq) /\
     (forall P, wsum P (s_gh s') = wsum P (s_gh s) + eff cf P dayv dayv (count (fun x => l_born x =? m) seq)) /\
-    (forall T, gh_ok T (s_gh s) -> tick_of h m <= T -> gh_ok T (s_gh s')).
+    (forall T, gh_ok T (s_gh s) -> tick_of h m <= T -> gh_ok T (s_gh s')) /\
+    (forall k, In k (keys (s_gh s')) <-> In k (keys (s_gh s)) \/ (0 < count (fun x => l_born x =? m) seq /\ k = tick_of h m)).
   Proof.
     intros Hp Hne HF E. set (L := filter (aliveb A m) seq) in *.
     remember ls as ls0 eqn:Els in HF.
@@ -182,7 +202,7 @@ Section Merge.
     rewrite H0, Eo, merge_others_map in E.
     set (g := fun x => fold_left (fun acc f => comb acc (f x)) (map (fun l => nv tM (aliveb A l) valf) ls') (nv tM (aliveb A l0) valf x)) in *.
     destruct (resolve_marks cf (f_hist f0) dayv (map g L) s) as [[r s1]| |] eqn:E1; try discriminate.
-    injection E as <- <-. cbn [f_vals]. destruct (resolve_marks_map cf _ _ g L s r s1 E1) as (R1 & R2 & R3).
+    injection E as <- <-. cbn [f_vals]. destruct (resolve_marks_map cf _ _ g L s r s1 E1) as (R1 & R2 & R3 & R4).
     (* the value of every line of L after the per-line rule *)
     assert (Hg : forall x, In x L -> g x = if l_born x =? m then tM else valf x).
     { intros x Hx. unfold L in Hx. apply filter_In in Hx. destruct Hx as [Hx Ha].
@@ -208,17 +228,20 @@ Section Merge.
       destruct (Z.eqb_spec (l_born x) m) as [Eb|Nb].
       - rewrite tM_mark. unfold dayv, val. rewrite Eb. reflexivity.
       - destruct (val_nomark h cf aidx Hcf Hmark Haidx p seq x Hp (proj1 Hx')) as [Hvn _]. rewrite Hvn. reflexivity. }
-    split.
-    { intros P. rewrite R2. f_equal. f_equal.
-      rewrite (count_ext_in _ (fun x => l_born x =? m) L).
+    assert (Ecnt : count (fun x => is_mark (g x)) L = count (fun x => l_born x =? m) seq).
+    { rewrite (count_ext_in _ (fun x => l_born x =? m) L).
       - unfold L. rewrite count_filter. apply count_ext_in. intros x Hx.
         destruct (Z.eqb_spec (l_born x) m) as [Eb|Nb]; [|apply andb_false_r].
         rewrite (born_m_alive p seq x Hp Hx Eb). reflexivity.
       - intros x Hx. rewrite (Hg x Hx). assert (Hx' := Hx). unfold L in Hx'. apply filter_In in Hx'.
         destruct (Z.eqb_spec (l_born x) m); [apply tM_mark|].
         destruct (val_nomark h cf aidx Hcf Hmark Haidx p seq x Hp (proj1 Hx')) as [Hvn _]. exact Hvn. }
-    intros T Hok HT. apply R3; auto. intros _. destruct dayv_facts as [_ Ht]. rewrite Ht.
-    pose proof (tick_nonneg h Hcf m Hm). lia.
+    split.
+    { intros P. rewrite R2, Ecnt. reflexivity. }
+    split.
+    { intros T Hok HT. apply R3; auto. intros _. destruct dayv_facts as [_ Ht]. rewrite Ht.
+      pose proof (tick_nonneg h Hcf m Hm). lia. }
+    intros k. destruct dayv_facts as [Hdn Hdt]. rewrite (R4 Hdn k), Ecnt, Hdt. reflexivity.
   Qed.
 
   (* ---------- BurndownAnalysis.Merge over the touched paths ---------- *)
@@ -267,12 +290,14 @@ Section Merge.
     Forall2 same_meta all all' /\
     (forall P, wsum P (s_gh s') = wsum P (s_gh s) +
                sum_z (map (fun kv => eff cf P dayv dayv (count born_m (seq_of (fst kv)))) keys)) /\
-    (forall T, gh_ok T (s_gh s) -> tick_of h m <= T -> gh_ok T (s_gh s')).
+    (forall T, gh_ok T (s_gh s) -> tick_of h m <= T -> gh_ok T (s_gh s')) /\
+    (forall k, In k (SparseFacts.keys (s_gh s')) <-> In k (SparseFacts.keys (s_gh s)) \/
+       ((exists kv, In kv keys /\ 0 < count born_m (seq_of (fst kv))) /\ k = tick_of h m)).
   Proof.
     induction keys as [|[p v] keys IH]; intros D all s all' s' Hnd Hk Hne HF E.
     - cbn in E. injection E as <- <-. cbn [fold_left map]. split; auto. split.
       { clear. induction all; constructor; auto. repeat split. }
-      split; [intros P; cbn; lia|auto].
+      split; [intros P; cbn; lia|split; [auto|]]. intros k. split; [auto|]. intros [H|[(kv & [] & _) _]]; auto.
     - destruct (Hk (p, v) (or_introl eq_refl)) as (HD & Hv & seq & Hp & Hex). cbn [fst snd] in *. subst v.
       cbn [merge_keys] in E.
       pose proof (some_files_all p seq D Hp HD Hex ls all HF) as HFs.
@@ -281,25 +306,298 @@ Section Merge.
       { exfalso. apply Hne. remember ls as ls0 eqn:Els in HFs. remember (@nil file) as e eqn:Ee in HFs.
         destruct HFs; [congruence|discriminate]. }
       destruct (file_merge cf dayv f0 others s) as [[f' s1]| |] eqn:Em; try discriminate.
-      destruct (file_merge_spec p seq (f0 :: others) s f' s1 Hp Hne HFs Em) as (M1 & M2 & M3).
+      destruct (file_merge_spec p seq (f0 :: others) s f' s1 Hp Hne HFs Em) as (M1 & M2 & M3 & M4).
       set (all1 := map (fun b => with_files b (aset (b_files b) p f')) all) in *.
       assert (HF1 : Forall2 (mid (p :: D)) ls all1).
       { unfold all1. clear - HF M1 Hp Hcf. induction HF as [|l b ks' all0 Hb HF IH]; [constructor|].
         cbn [map]. constructor; auto. intros pl Hin. specialize (Hb pl Hin). unfold with_files. cbn [b_files].
-        rewrite aget_aset. unfold memz in *. cbn [existsb]. destruct (Z.eqb_spec (fst pl) p) as [Ep|Np].
+        unfold pgood in *. rewrite !aget_aset. unfold memz in *. cbn [existsb]. destruct (Z.eqb_spec (fst pl) p) as [Ep|Np].
         - rewrite Ep, Z.eqb_refl. cbn [orb]. exists (f_hist f'). destruct f' as [v' h']. cbn [f_vals f_hist] in *. subst v'.
           destruct pl as [p' seq']. cbn [fst snd] in *. subst p'.
           rewrite <- (seq_of_in p seq Hp), (seq_of_in p seq' Hin). reflexivity.
         - cbn [orb]. destruct (Z.eqb_spec p (fst pl)); [congruence|]. exact Hb. }
-      destruct (IH (p :: D) all1 s1 all' s' Hnd') as (R1 & R2 & R3 & R4); auto.
+      assert (Hk' : forall kv, In kv keys -> memz (fst kv) (p :: D) = false /\ snd kv = true /\
+                 exists seq, In (fst kv, seq) (h_paths h) /\ path_exists A m seq = true).
       { intros kv Hin. destruct (Hk kv (or_intror Hin)) as (K1 & K2 & K3). split; [|auto].
         unfold memz in *. cbn [existsb]. rewrite K1, orb_false_r. apply Z.eqb_neq. intros Eq. apply Hnotin.
         rewrite <- Eq. apply in_map. exact Hin. }
+      destruct (IH (p :: D) all1 s1 all' s' Hnd' Hk' Hne HF1 E) as (R1 & R2 & R3 & R4 & R5).
       cbn [fold_left fst]. split; [exact R1|]. split.
-      { clear - R2. unfold all1 in R2. revert all' R2. induction all as [|b all0 IHa]; intros all' R2; inversion R2; subst; constructor; auto.
-        destruct H1 as (T1 & T2 & T3 & T4). repeat split; auto. }
+      { clear - R2. unfold all1 in R2. revert all' R2. induction all as [|b all0 IHa]; intros all' R2; inversion R2; subst; constructor; auto. }
       split.
       { intros P. rewrite R3, M2. cbn [map fst]. rewrite sum_z_cons, (seq_of_in p seq Hp). lia. }
-      intros T Hok HT. apply R4; auto.
+      split; [intros T Hok HT; apply R4; auto|].
+      intros k. rewrite (R5 k), (M4 k). cbn [fst]. rewrite <- (seq_of_in p seq Hp). split.
+      + intros [[H|[H1 H2]]|[(kv & Hin & Hc) H2]]; auto.
+        * right. split; auto. exists (p, true). split; [left; auto|auto].
+        * right. split; auto. exists kv. split; [right; auto|auto].
+      + intros [H|[(kv & [<-|Hin] & Hc) H2]]; auto.
+        right. split; auto. exists kv. auto.
+  Qed.
+
+  (* ---------- the keys of Merge: the paths some replay touched ---------- *)
+  Hypothesis Hsub : forall l, In l ls -> forall seq, old_exists A (Some l) seq = true -> path_exists A m seq = true.
+
+  Lemma touched_exists l seq : In l ls -> touched A (Some l) m seq = true -> path_exists A m seq = true.
+  Proof.
+    intros Hl. unfold touched. pose proof (Hsub l Hl seq) as Hs.
+    destruct (old_exists A (Some l) seq), (path_exists A m seq); auto; try discriminate.
+  Qed.
+
+  Lemma untouched_good l seq files p : touched A (Some l) m seq = false ->
+    pgood (path_exists A m seq) (aliveb A m) (nv tM (aliveb A l) valf) files p seq ->
+    pgood (path_exists A m seq) (aliveb A m) valf files p seq.
+  Proof.
+    unfold touched, pgood. intros Ht Hg. destruct (path_exists A m seq) eqn:En; [|exact Hg].
+    destruct (old_exists A (Some l) seq) eqn:Eo; [|discriminate].
+    apply negb_false_iff in Ht. rewrite forallb_forall in Ht.
+    destruct Hg as [hd Hg]. exists hd. rewrite Hg. f_equal. f_equal. apply map_ext_in. intros x Hx.
+    apply filter_In in Hx. destruct Hx as [Hx Ha]. specialize (Ht x Hx). unfold lstatus, old_alive in Ht. rewrite Ha in Ht.
+    unfold nv. destruct (aliveb A l x); [reflexivity|discriminate].
+  Qed.
+
+  Lemma born_touched l p seq x : In l ls -> In (p, seq) (h_paths h) -> In x seq -> l_born x = m ->
+    touched A (Some l) m seq = true.
+  Proof.
+    intros Hl Hp Hx Hb. pose proof (born_m_alive p seq x Hp Hx Hb) as Ha.
+    assert (Hn : aliveb A l x = false) by (unfold aliveb; rewrite Hb, (Hnew l Hl); reflexivity).
+    assert (Hex : path_exists A m seq = true).
+    { unfold path_exists. apply existsb_exists. exists x. split; auto. unfold aliveb in Ha. apply andb_prop in Ha. tauto. }
+    unfold touched. rewrite Hex. destruct (old_exists A (Some l) seq); [|reflexivity].
+    apply negb_true_iff. destruct (forallb _ seq) eqn:Ef; [|reflexivity]. rewrite forallb_forall in Ef.
+    specialize (Ef x Hx). unfold lstatus, old_alive in Ef. rewrite Hn, Ha in Ef. discriminate.
+  Qed.
+
+  (* entries of mergedFiles after a replay *)
+  Lemma merged_after_in l : forall paths m0 kv,
+    In kv (merged_after A (Some l) m mark paths m0) ->
+    In kv m0 \/ (snd kv = true /\ exists seq, In (fst kv, seq) paths /\ touched A (Some l) m seq = true).
+  Proof.
+    unfold merged_after. induction paths as [|[p seq] paths IH]; intros m0 kv Hin; cbn [fold_left] in Hin; [auto|].
+    apply IH in Hin. destruct Hin as [Hin|(E & seq' & Hs & Ht)].
+    - cbn [fst snd] in Hin. rewrite Z.eqb_refl in Hin. cbn [andb] in Hin.
+      destruct (touched A (Some l) m seq) eqn:Et; [|auto].
+      apply in_aset in Hin. destruct Hin as [->|Hin]; [|auto]. right. split; auto. exists seq. split; [left; auto|auto].
+    - right. split; auto. exists seq'. split; [right; auto|auto].
+  Qed.
+
+  Lemma merged_after_cover l : forall paths m0 p seq, In (p, seq) paths -> touched A (Some l) m seq = true ->
+    exists v, aget (merged_after A (Some l) m mark paths m0) p = Some v.
+  Proof.
+    unfold merged_after. induction paths as [|[p' seq'] paths IH]; intros m0 p seq Hin Ht; [destruct Hin|].
+    cbn [fold_left fst snd]. rewrite Z.eqb_refl. cbn [andb]. destruct Hin as [E|Hin].
+    - injection E as -> ->. rewrite Ht.
+      assert (Hkeep : forall paths0 m1, (exists v, aget m1 p = Some v) ->
+                exists v, aget (fold_left (fun m2 pl => if true && touched A (Some l) m (snd pl) then aset m2 (fst pl) true else m2) paths0 m1) p = Some v).
+      { induction paths0 as [|[q sq] paths0 IHp]; intros m1 Hm1; [exact Hm1|]. cbn [fold_left fst snd andb].
+        apply IHp. destruct (touched A (Some l) m sq); [|exact Hm1]. rewrite aget_aset. destruct (q =? p); eauto. }
+      apply Hkeep. rewrite aget_aset, Z.eqb_refl. eauto.
+    - eapply IH; eauto.
+  Qed.
+
+  (* keys := fold of merged_keys over the branches *)
+  Definition key_ok (kv : Z * bool) : Prop :=
+    snd kv = true /\ exists l seq, In l ls /\ In (fst kv, seq) (h_paths h) /\ touched A (Some l) m seq = true.
+
+  Lemma merged_keys_ok : forall m0 ks, NoDup (map fst ks) -> (forall kv, In kv ks -> key_ok kv) ->
+    (forall kv, In kv m0 -> key_ok kv) ->
+    NoDup (map fst (merged_keys ks m0)) /\ (forall kv, In kv (merged_keys ks m0) -> key_ok kv) /\
+    (forall p, (exists v, aget ks p = Some v) \/ (exists v, aget m0 p = Some v) -> exists v, aget (merged_keys ks m0) p = Some v).
+  Proof.
+    induction m0 as [|[k v] m0 IH]; intros ks Hnd Hks Hm0; cbn [merged_keys].
+    - split; auto. split; auto. intros p [H|[v Hv]]; [auto|discriminate].
+    - assert (Hkv : key_ok (k, v)) by (apply Hm0; left; auto).
+      destruct (IH (aset ks k (aget_d false ks k || v))) as (R1 & R2 & R3).
+      + apply nodup_aset. exact Hnd.
+      + intros kv Hin. apply in_aset in Hin. destruct Hin as [->|Hin]; [|auto].
+        destruct Hkv as [Ev Hq]. cbn [snd] in Ev. subst v. split; [cbn [snd]; apply orb_true_r|exact Hq].
+      + intros kv Hin. apply Hm0. right; auto.
+      + split; auto. split; auto. intros p Hp. apply R3. cbn [aget] in Hp. destruct Hp as [[v' Hv']|[v' Hv']].
+        * left. rewrite aget_aset. destruct (k =? p); eauto.
+        * destruct (Z.eqb_spec k p) as [->|Hne]; [left; rewrite aget_aset, Z.eqb_refl; eauto|right; eauto].
+  Qed.
+
+  Lemma keys_ok : forall all ks0, NoDup (map fst ks0) -> (forall kv, In kv ks0 -> key_ok kv) ->
+    (forall b, In b all -> forall kv, In kv (b_merged b) -> key_ok kv) ->
+    let keys := fold_left (fun ks b => merged_keys ks (b_merged b)) all ks0 in
+    NoDup (map fst keys) /\ (forall kv, In kv keys -> key_ok kv) /\
+    (forall p, (exists v, aget ks0 p = Some v) \/ (exists b v, In b all /\ aget (b_merged b) p = Some v) -> exists v, aget keys p = Some v).
+  Proof.
+    induction all as [|b all IH]; intros ks0 Hnd Hks Hall; cbn [fold_left].
+    - split; auto. split; auto. intros p [H|(b & v & [] & _)]; auto.
+    - destruct (merged_keys_ok (b_merged b) ks0 Hnd Hks (Hall b (or_introl eq_refl))) as (M1 & M2 & M3).
+      destruct (IH (merged_keys ks0 (b_merged b)) M1 M2) as (R1 & R2 & R3).
+      { intros b' Hb'. apply Hall. right; auto. }
+      split; auto. split; auto. intros p Hp. apply R3. destruct Hp as [Hp|(b' & v & [<-|Hb'] & Hv)].
+      + left. apply M3. left; auto.
+      + left. apply M3. right; eauto.
+      + right. eauto.
+  Qed.
+
+  (* ---------- sums over the keys = sums over all paths ---------- *)
+  Lemma sum_absent (w : list line -> Z) k : forall paths : list (Z * list line), ~ In k (map fst paths) ->
+    sum_z (map (fun pl => if fst pl =? k then w (snd pl) else 0) paths) = 0.
+  Proof.
+    induction paths as [|[p seq] paths IH]; intros Hn; [reflexivity|]. cbn [map fst snd] in *. rewrite sum_z_cons.
+    destruct (Z.eqb_spec p k); [exfalso; apply Hn; left; auto|]. rewrite IH; [lia|]. intros H; apply Hn; right; auto.
+  Qed.
+
+  Lemma sum_single (w : list line -> Z) k : forall paths : list (Z * list line), NoDup (map fst paths) ->
+    sum_z (map (fun pl => if fst pl =? k then w (snd pl) else 0) paths) =
+    match aget paths k with Some seq => w seq | None => 0 end.
+  Proof.
+    induction paths as [|[p seq] paths IH]; intros Hnd; [reflexivity|].
+    inversion Hnd as [|? ? Hn Hnd']; subst. cbn [map fst snd aget]. rewrite sum_z_cons.
+    destruct (Z.eqb_spec p k) as [->|Hne].
+    - rewrite sum_absent by exact Hn. lia.
+    - rewrite IH by exact Hnd'. lia.
+  Qed.
+
+  Lemma sum_keys (w : list line -> Z) : forall ks : list Z, NoDup ks ->
+    sum_z (map (fun k => match aget (h_paths h) k with Some seq => w seq | None => 0 end) ks) =
+    sum_z (map (fun pl => if memz (fst pl) ks then w (snd pl) else 0) (h_paths h)).
+  Proof.
+    induction ks as [|k ks IH]; intros Hnd.
+    - cbn [map memz existsb]. symmetry. induction (h_paths h) as [|x l IHl]; [reflexivity|]. cbn [map]. rewrite sum_z_cons, IHl. reflexivity.
+    - inversion Hnd as [|? ? Hn Hnd']; subst. cbn [map]. rewrite sum_z_cons, (IH Hnd').
+      rewrite <- (sum_single w k (h_paths h) (paths_nodup h Hcf)).
+      assert (E : forall (f g : Z * list line -> Z) l, sum_z (map f l) + sum_z (map g l) = sum_z (map (fun x => f x + g x) l)).
+      { intros f g l. induction l as [|x l IHl]; [reflexivity|]. cbn [map]. rewrite !sum_z_cons. lia. }
+      rewrite E. f_equal. apply map_ext. intros [p seq]. cbn [fst snd]. unfold memz. cbn [existsb].
+      destruct (Z.eqb_spec p k) as [->|Hne]; cbn [orb].
+      + assert (existsb (Z.eqb k) ks = false).
+        { destruct (existsb (Z.eqb k) ks) eqn:Ee; auto. apply existsb_exists in Ee. destruct Ee as (y & Hy & Ey).
+          apply Z.eqb_eq in Ey. subst. tauto. }
+        rewrite H. lia.
+      + lia.
+  Qed.
+
+  (* ---------- BurndownAnalysis.Merge ---------- *)
+  Definition replayed (l : Z) (b : branch) : Prop :=
+    mgood l b /\ b_merged b = merged_after A (Some l) m mark (h_paths h) [] /\
+    b_tick b = tick_of h m /\ b_mauthor b = znth 0 aidx m.
+
+  Lemma fold_cons_in (keys : list (Z * bool)) : forall D p,
+    In p (fold_left (fun D kv => fst kv :: D) keys D) <-> In p (map fst keys) \/ In p D.
+  Proof.
+    induction keys as [|kv keys IH]; intros D p; cbn [fold_left map]; [cbn [In]; tauto|].
+    rewrite IH. cbn [In]. tauto.
+  Qed.
+
+  Lemma Forall2_in_l {X Y} (R : X -> Y -> Prop) xs ys x : Forall2 R xs ys -> In x xs -> exists y, In y ys /\ R x y.
+  Proof. induction 1; cbn; [tauto|]. intros [->|H']; [eauto|]. destruct (IHForall2 H') as (y0 & ? & ?). eauto. Qed.
+  Lemma Forall2_in_r {X Y} (R : X -> Y -> Prop) xs ys y : Forall2 R xs ys -> In y ys -> exists x, In x xs /\ R x y.
+  Proof. induction 1; cbn; [tauto|]. intros [->|H']; [eauto|]. destruct (IHForall2 H') as (x0 & ? & ?). eauto. Qed.
+
+  Lemma count_paths (f : line -> bool) :
+    sum_z (map (fun pl => count f (snd pl)) (h_paths h)) = count (fun pl => f (snd pl)) (all_lines h).
+  Proof.
+    unfold all_lines. induction (h_paths h) as [|[p seq] r IH]; [reflexivity|].
+    cbn [map flat_map fst snd]. rewrite sum_z_cons, count_app, IH, count_map. reflexivity.
+  Qed.
+
+  Theorem analysis_merge_spec all s all' s' : ls <> [] -> Forall2 replayed ls all ->
+    analysis_merge cf all s = Ok (all', s') ->
+    Forall2 (fun (_ : Z) b' => bgood h cf aidx (Some m) b') ls all' /\
+    (forall P, wsum P (s_gh s') = wsum P (s_gh s) + contrib h P m) /\
+    (forall T, gh_ok T (s_gh s) -> tick_of h m <= T -> gh_ok T (s_gh s')) /\
+    (forall k, In k (SparseFacts.keys (s_gh s')) <-> In k (SparseFacts.keys (s_gh s)) \/ (event h m = true /\ k = tick_of h m)).
+  Proof.
+    intros Hne HF E. unfold analysis_merge in E.
+    destruct all as [|me rest]; [exfalso; apply Hne; remember ls as ls0 in HF; remember (@nil branch) as e in HF; destruct HF; [congruence|discriminate]|].
+    set (keys := fold_left (fun ks b => merged_keys ks (b_merged b)) (me :: rest) []) in *.
+    assert (Hday : pack cf (b_mauthor me) (b_tick me) = dayv).
+    { remember ls as ls0 in HF. remember (me :: rest) as al in HF. destruct HF as [|l0 b0 ? ? Hr _]; [discriminate|].
+      injection Heqal as -> _. destruct Hr as (_ & _ & -> & ->). reflexivity. }
+    rewrite Hday in E.
+    (* the keys *)
+    destruct (keys_ok (me :: rest) [] (NoDup_nil _) (fun kv (H : In kv []) => match H with end)) as (K1 & K2 & K3).
+    { intros b Hb kv Hkv. destruct (Forall2_in_r _ _ _ b HF Hb) as (l & Hl & (_ & Em & _)).
+      rewrite Em in Hkv. apply merged_after_in in Hkv. destruct Hkv as [[]|(Ev & seq & Hs & Ht)].
+      split; auto. exists l, seq. auto. }
+    fold keys in K1, K2, K3.
+    assert (Hcover : forall l p seq, In l ls -> In (p, seq) (h_paths h) -> touched A (Some l) m seq = true -> In p (map fst keys)).
+    { intros l p seq Hl Hp Ht. destruct (Forall2_in_l _ _ _ l HF Hl) as (b & Hb & (_ & Em & _)).
+      destruct (merged_after_cover l (h_paths h) [] p seq Hp Ht) as [v Hv]. rewrite <- Em in Hv.
+      destruct (K3 p) as [v' Hv']; [right; eauto|]. apply aget_in in Hv'. change p with (fst (p, v')). apply in_map. exact Hv'. }
+    destruct (merge_keys cf dayv keys (me :: rest) s) as [[all1 s1]| |] eqn:Em; try discriminate.
+    destruct (merge_keys_spec keys [] (me :: rest) s all1 s1 K1) as (R1 & R2 & R3 & R4 & R5); auto.
+    { intros kv Hkv. split; [reflexivity|]. destruct (K2 kv Hkv) as (Ev & l & seq & Hl & Hp & Ht). split; auto.
+      exists seq. split; auto. eapply touched_exists; eauto. }
+    { clear - HF. induction HF as [|l b ? ? Hr HF IH]; constructor; auto. destruct Hr as [Hg _]. intros pl Hin. cbn. apply Hg. exact Hin. }
+    set (Dfin := fold_left (fun D kv => fst kv :: D) keys []) in *.
+    assert (HD : forall p, memz p Dfin = true <-> In p (map fst keys)).
+    { intros p. rewrite memz_in_iff. unfold Dfin. rewrite fold_cons_in. cbn [In]. tauto. }
+    (* the result *)
+    assert (Hres : exists me1 rest1, all1 = me1 :: rest1 /\ all' = on_new_tick me1 :: rest1 /\ s' = s1).
+    { inversion R2; subst. injection E as <- <-. eauto. }
+    destruct Hres as (me1 & rest1 & -> & -> & ->).
+    split.
+    { assert (HG : forall l b1, In l ls -> mid Dfin l b1 -> forall b2, b_files b2 = b_files b1 -> bgood h cf aidx (Some m) b2).
+      { intros l b1 Hl Hmid b2 Ef [p seq] Hin. specialize (Hmid (p, seq) Hin). cbn [fst snd] in *. rewrite Ef.
+        change (old_exists A (Some m) seq) with (path_exists A m seq). change (old_alive A (Some m)) with (aliveb A m).
+        destruct (memz p Dfin) eqn:EmD.
+        - apply HD in EmD. apply in_map_iff in EmD. destruct EmD as (kv & Ek & Hkv).
+          destruct (K2 kv Hkv) as (_ & l' & seq' & Hl' & Hp' & Ht'). rewrite Ek in Hp'.
+          assert (seq' = seq) by (rewrite <- (seq_of_in p seq' Hp'), (seq_of_in p seq Hin); reflexivity). subst seq'.
+          unfold pgood. rewrite (touched_exists l' seq Hl' Ht'). exact Hmid.
+        - apply (untouched_good l); auto. destruct (touched A (Some l) m seq) eqn:Et; auto.
+          assert (In p (map fst keys)) by (eapply Hcover; eauto). apply HD in H. congruence. }
+      assert (G : forall ks bs bs', Forall2 (mid Dfin) ks bs -> Forall2 (fun b b' => b_files b' = b_files b) bs bs' ->
+                  (forall l, In l ks -> In l ls) ->
+                  Forall2 (fun (_ : Z) b' => bgood h cf aidx (Some m) b') ks bs').
+      { intros ks bs bs' HF2. revert bs'. induction HF2 as [|l b ? ? Hm' HF2 IH]; intros bs' HE Hsub'; inversion HE; subst; constructor.
+        - apply (HG l b); auto. apply Hsub'. left; auto.
+        - apply IH; auto. intros; apply Hsub'; right; auto. }
+      apply (G ls (me1 :: rest1)); auto. constructor; [reflexivity|].
+      clear. induction rest1; constructor; auto. }
+    split.
+    { intros P. rewrite R3. f_equal. unfold contrib.
+      destruct dayv_facts as [Hdn Hdt].
+      assert (Eeff : forall x, eff cf P dayv dayv x = if P (tick_of h m) (tick_of h m) then x else 0).
+      { intros x. unfold eff. rewrite Hdn, Hdt. reflexivity. }
+      assert (Ed : count (fun pl => (l_killer (snd pl) =? m) && P (tick_of h m) (birth_tick h (snd pl))) (all_lines h) = 0).
+      { unfold count. rewrite (filter_ext_in _ (fun _ => false)); [clear; induction (all_lines h); cbn; auto|].
+        intros pl Hin. destruct (Z.eqb_spec (l_killer (snd pl)) m) as [Ek|]; [exfalso; eapply Hkill; eauto|reflexivity]. }
+      rewrite Ed, Z.sub_0_r.
+      rewrite (map_ext _ (fun kv => if P (tick_of h m) (tick_of h m) then count born_m (seq_of (fst kv)) else 0)) by (intros; apply Eeff).
+      destruct (P (tick_of h m) (tick_of h m)).
+      - rewrite <- (count_paths born_m).
+        transitivity (sum_z (map (fun k => match aget (h_paths h) k with Some seq => count born_m seq | None => 0 end) (map fst keys))).
+        { rewrite map_map. f_equal. apply map_ext. intros kv. unfold seq_of, aget_d. destruct (aget (h_paths h) (fst kv)); reflexivity. }
+        rewrite (sum_keys (fun seq => count born_m seq) (map fst keys) K1).
+        f_equal. apply map_ext_in. intros [p seq] Hin. cbn [fst snd].
+        destruct (memz p (map fst keys)) eqn:Emk; [reflexivity|].
+        (* a path outside the keys has no line born at m *)
+        symmetry. unfold count. rewrite (filter_ext_in _ (fun _ => false)); [clear; induction seq; cbn; auto|].
+        intros x Hx. destruct (Z.eqb_spec (l_born x) m) as [Eb|]; [|reflexivity]. exfalso.
+        destruct ls as [|l0 ls0] eqn:Els; [congruence|].
+        assert (Hin0 : In l0 ls) by (rewrite Els; left; auto).
+        rewrite <- Els in *.
+        pose proof (born_touched l0 p seq x Hin0 Hin Hx Eb) as Ht.
+        pose proof (Hcover l0 p seq Hin0 Hin Ht) as Hk. apply memz_in_iff in Hk. congruence.
+      - clear. induction keys; cbn; auto. }
+    split; [intros T Hok HT; apply R4; auto|].
+    intros k. rewrite (R5 k).
+    assert (Eev : (exists kv, In kv keys /\ 0 < count born_m (seq_of (fst kv))) <-> event h m = true).
+    { unfold event. rewrite existsb_exists. split.
+      - intros (kv & Hkv & Hc). destruct (K2 kv Hkv) as (_ & l & seq & Hl & Hp & _).
+        rewrite (seq_of_in _ seq Hp) in Hc.
+        assert (exists x, In x seq /\ l_born x = m) as (x & Hx & Eb).
+        { clear - Hc. induction seq as [|y r IH]; [cbn in Hc; lia|]. rewrite count_cons in Hc.
+          destruct (Z.eqb_spec (l_born y) m); [exists y; split; [left; auto|auto]|].
+          destruct IH as (x & ? & ?); [lia|]. exists x. split; [right; auto|auto]. }
+        exists (fst kv, x). split; [eapply in_all_lines; eauto|]. cbn [snd]. rewrite Eb, Z.eqb_refl. reflexivity.
+      - intros ([p x] & Hin & Ex). cbn [snd] in Ex. apply orb_prop in Ex. destruct Ex as [Ex|Ex].
+        2:{ apply Z.eqb_eq in Ex. exfalso. apply (Hkill (p, x) Hin Ex). }
+        apply Z.eqb_eq in Ex. unfold all_lines in Hin. apply in_flat_map in Hin. destruct Hin as ([p' seq] & Hp & Hx).
+        cbn [fst snd] in Hx. apply in_map_iff in Hx. destruct Hx as (x' & E0 & Hx). injection E0 as -> ->.
+        destruct ls as [|l0 ls0] eqn:Els; [congruence|]. assert (Hin0 : In l0 ls) by (rewrite Els; left; auto). rewrite <- Els in *.
+        pose proof (born_touched l0 p seq x Hin0 Hp Hx Ex) as Ht.
+        pose proof (Hcover l0 p seq Hin0 Hp Ht) as Hk. apply in_map_iff in Hk. destruct Hk as (kv & Ek & Hkv).
+        exists kv. split; auto. rewrite Ek, (seq_of_in p seq Hp).
+        clear - Hx Ex. induction seq as [|y r IH]; [destruct Hx|]. rewrite count_cons. pose proof (count_nonneg born_m r).
+        destruct Hx as [->|Hx]; [rewrite Ex, Z.eqb_refl; lia|]. specialize (IH Hx). destruct (l_born y =? m); lia. }
+    rewrite Eev. reflexivity.
   Qed.
 End Merge.
